@@ -206,6 +206,25 @@ def main(pid, tier, seed, replay_path=None):
                 if not srv.alive():
                     fails.append(("time_of_trip=%d kills the server (exit %s)" % (t, srv.exit_status()), qs))
                     srv = l3.Server(binary, cache, stub.port)
+        # the same extremes with EVERY stop far away and no walking limit (max_access/egress_travel_time=0): the shortest
+        # access / egress walk is then 100000 s, so "request time minus the shortest egress walk" is far below 0:00 and
+        # "request time plus the shortest access walk" far beyond 32:00 -- the hours the scans enter through lie outside the tables
+        stub.set_tables([], [])
+        for t in [0, 1, 3600, 7199, 86400, 115199, 115200, 200000]:
+            for tt in (0, 1):
+                for kind in ("route", "access"):
+                    base = [("scenario_id", SCEN(1)), ("time_of_trip", str(t)), ("time_type", str(tt)), ("max_access_travel_time", "0"), ("max_egress_travel_time", "0")]
+                    lst = ([("origin", "-73.0,45.0001"), ("destination", "-73.0,45.0002")] if kind == "route" else [("place", "-73.0,45.0001")]) + base
+                    qs = qs_of(kind, lst)
+                    st, hd, body = srv.get(qs, timeout=20)
+                    got = parse_http(kind, st, hd, body)
+                    l3_evals += 1
+                    if not got.startswith("http 200 answer %d %d" % (t, tt)):
+                        fails.append(("far stops, no walking limit, time_of_trip=%d time_type=%d: expected an answer with the query echoed, got %r" % (t, tt, got), qs))
+                    if not srv.alive():
+                        fails.append(("far stops, no walking limit, time_of_trip=%d time_type=%d kills the server (exit %s)" % (t, tt, srv.exit_status()), qs))
+                        srv = l3.Server(binary, cache, stub.port)
+        stub.set_tables([(node, 30, 40)], [(ds.nodes[-1], 30, 40)])
         # /updateCache: known, unknown, empty, mixed names
         known = ["all", "schedules", "scenarios", "nodes", "lines", "paths", "agencies", "services", "data_sources", "persons", "od_trips"]
         ucases = [["schedules"], ["foo"], [""], ["foo", "schedules"], ["schedules", "foo"], ["foo", "bar"], ["scenarios", "schedules"], ["all"], ["", "all"], ["nodes", ""]]
